@@ -71,7 +71,14 @@ RulesOf(U, full) ==
                     k \in k1, x \in ra \cup p1, a \in KindAtoms(U, 2) \cup ra, b \in ra }
               \cup { [op |-> "all", subs |-> << k, [op |-> "any", subs |-> <<a, b>>], [op |-> "not", sub |-> x] >>] :
                     k \in KindAtoms(U, 2), a \in ra, b \in p1, x \in ra }
-    IN A \cup R2 \cup C2 \cup R3 \cup C3 \cup C4
+        \* a pattern next to a negated rule that uses the SAME variables: the negated rule is evaluated under the bindings
+        \* made so far (a node is kept when no CONSISTENT match of the negated rule exists)
+        p4 == PatAtoms(U, 4)
+        C5 == IF ~full THEN {} ELSE
+              { [op |-> "all", subs |-> <<x, [op |-> "not", sub |-> y]>>] : x \in p4, y \in p4 }
+              \cup { [op |-> "all", subs |-> <<x, [op |-> "not", sub |-> [op |-> o, sub |-> y, stop |-> EndStop, field |-> ""]]>>] :
+                       x \in p4, y \in p4, o \in {"inside", "has"} }
+    IN A \cup R2 \cup C2 \cup R3 \cup C3 \cup C4 \cup C5
 
 \* documents with local utilities: [rule, utils]
 UtilDocs(U) ==
